@@ -256,6 +256,37 @@ def g_handshake(mode):
                             fail(violated="connection left open after failed handshake", **desc)
                     finally:
                         c.close()
+            # an id that WAS registered (weakly) and served, and whose object has since been garbage collected, names no registered object any more:
+            # a CONNECT for it must fail, and what is pipelined behind it (a call on another, still registered object) must not run
+            import gc
+            D.behaviour = "accept"
+            RUNS[0] += 1
+            del LOG[:]
+            w = Target()
+            r.daemon.register(w, "weakling", weak=True)
+            c0 = Raw(r.addr)
+            m0 = c0.connect("weakling")
+            if m0 is None or m0.type != P.MSG_CONNECTOK:
+                fail(group="C08", server=st, violated="valid handshake to a weakly registered object not accepted")
+            c0.close()
+            del w
+            gc.collect()
+            c = Raw(r.addr)
+            try:
+                c.send_msg(P.MSG_CONNECT, marshal.dumps({"handshake": "hello", "object": "weakling"}))
+                try:
+                    c.invoke("target", "echo", ("pipelined",))
+                except OSError:
+                    pass
+                m = c.reply()
+                time.sleep(0.05)
+                desc = {"group": "C08", "server": st, "first_message": "connect-to-collected-weak-object (served once before it was collected)"}
+                if any(e[0] == "echo" for e in LOG):
+                    fail(violated="method executed on a connection without accepted handshake: %r" % (LOG,), **desc)
+                if m is not None and m.type == P.MSG_CONNECTOK:
+                    fail(violated="CONNECTOK although the handshake had to fail (no object is registered under that id)", **desc)
+            finally:
+                c.close()
             if not r.loop_alive():
                 fail(group="C08", server=st, violated="request loop died")
 
@@ -1398,6 +1429,12 @@ def g_registry(mode):
             RUNS[0] += 1
             w, later = Box("weak"), Box("later")
             d.register(w, "idw", weak=True)
+            # (a client has talked to the object before: whatever the daemon remembers about the id from that connection must not outlive the registration)
+            try:
+                with client.Proxy("PYRO:idw@%s:%d" % r.addr) as q0:
+                    q0.who()
+            except Exception:      # noqa
+                pass
             if how == "unregistered-by-object-then-id-reused":
                 d.unregister(w)
                 d.register(later, "idw")
@@ -1408,6 +1445,13 @@ def g_registry(mode):
                 d.register(later, "idw", force=True)
             del w
             gc.collect()
+            if how == "collected-while-registered":
+                # the handshake itself must refuse the id of the collected object (whatever the daemon remembered about it from the earlier connection)
+                rawc = Raw(r.addr)
+                mc = rawc.connect("idw")
+                if mc is not None and mc.type == P.MSG_CONNECTOK:
+                    fail(group="C16", how=how, violated="a CONNECT naming the id of a garbage-collected weakly registered object was answered CONNECTOK (nothing is registered under it)")
+                rawc.close()
             try:
                 with client.Proxy("PYRO:idw@%s:%d" % r.addr) as q:
                     who = q.who()
@@ -1636,6 +1680,21 @@ def g_gate(mode):
                         fail(violated="property code ran for a name that is not an exposed non-private property: %r" % (ran,), **desc)
                     if allowed and not ran and not surplus:
                         fail(violated="advertised attribute was not served", **desc)
+        # after the member list of the class was computed (the handshake above did that): an instance attribute that SHADOWS an exposed method with something
+        # unexposed, and an exposed method replaced on the class by an unexposed function - the name must be refused from now on (the gate looks at what the name
+        # denotes NOW, not at a remembered list)
+        RUNS[0] += 1
+        del LOG[:]
+
+        def shadow(*a, **k):
+            LOG.append("shadow-ran")
+            return "shadow"
+        obj.m = shadow
+        raw.invoke("shape", "m", (), seq=777)
+        msh = raw.reply()
+        if "shadow-ran" in LOG or (msh is not None and not (msh.flags & P.FLAGS_EXCEPTION)):
+            fail(group="C02", name="'m'", kind="call", violated="an instance attribute shadowing an exposed method was served although it is not exposed (the gate used a remembered member list): %r" % (list(LOG),))
+        del obj.m
         raw.close()
         if advertised_methods != {"m", "ow", "sm", "cm", "base_exposed", "__len__"} or advertised_attrs != {"p", "ro"}:
             fail(group="C02", violated="advertised members %r / %r" % (sorted(advertised_methods), sorted(advertised_attrs)))
